@@ -32,7 +32,7 @@ def run_worker(args):
 
 def correspondence(ctx):
     th = ctx.tier == "thorough"
-    hashseeds = [0, 1, 2, 3] if not th else list(range(16))
+    hashseeds = [0, 1, 2, 3, 4, 5] if not th else list(range(16))
     seeds = [42] if not th else [42, 7, 1234]
     episodes = 3 if not th else 5
     jobs = []
@@ -76,7 +76,7 @@ def correspondence(ctx):
     ctx.coverage.update({
         "evaluations": len(jobs),
         "distinct_nontrivial": len(groups) * len(hashseeds),
-        "rule": "one probe session (two agents, several episodes ended by resets, random start host, ScanNetwork/FindServices/ExploitService/FindData/BlockIP chosen deterministically from the current view) per (shipped scenario x static/dynamic addresses x seed), each played in separate interpreter processes with different PYTHONHASHSEED; all processes of a group must produce identical decoded transcripts, address maps and hashes; distinct = process runs",
+        "rule": "one probe session (three attackers with a random start host each and one defender, several episodes ended by resets, random start host, ScanNetwork/FindServices/ExploitService/FindData/BlockIP chosen deterministically from the current view) per (shipped scenario x static/dynamic addresses x seed), each played in separate interpreter processes with different PYTHONHASHSEED; all processes of a group must produce identical decoded transcripts, address maps and hashes; distinct = process runs",
         "groups": len(groups), "hash_seeds": hashseeds, "responses_compared": responses,
         "samples": [{"scenario": k[0], "dynamic": k[1], "seed": k[2], "hash": v[0][1]["hash"][:16], "responses": len(v[0][1]["transcript"])} for k, v in list(groups.items())[:3]],
     })
